@@ -305,6 +305,7 @@ func rebuild(f *Filt) *Filt {
 func runC07(c *Ctx) {
 	bigBatches(c, "C07")
 	refilterHop(c)
+	equalRefilterRace(c, "C07")
 	fam := filterFamily()
 	// two conjunctions that differ only in a non-comparable (FN) child: never equal
 	fam = append(fam, and(fn(fam[2]), fam[5]), and(fn(fam[3]), rebuild(fam[5])))
@@ -559,6 +560,7 @@ func runC08(c *Ctx) {
 
 func runC06(c *Ctx) {
 	parentCacheStopped(c, "C06")
+	equalRefilterRace(c, "C06")
 	n := 30
 	if !c.Quick() {
 		n = 4000
@@ -1180,4 +1182,92 @@ func subscribeUnderFlood(c *Ctx) {
 		c.Violation("", fmt.Sprintf("%d events received from nodes whose Ready() was still open [%s]", n, what), replay)
 	}
 	c.DistinctCase("subscribe-under-flood")
+}
+
+// equalRefilterRace: a Refilter with a filter EQUAL to the current one that
+// becomes ready at the same moment as a parent event for a newly accepted
+// object.  The node's goroutine is held at a log call while it handles an
+// earlier event (a preemption there; which of the component's log calls that
+// is does not matter for the oracle, n = 1..4 are all tried), the server
+// creates another accepted object, Refilter(equal) is called from a second
+// goroutine, and the node is let go: its select finds both ready and takes
+// either.  Whichever it takes: the equal Refilter emits nothing and changes
+// nothing, so a consumer that mirrors the stream from the content at
+// readiness ends up with the node's cache, which is the filter applied to the
+// server.
+func equalRefilterRace(c *Ctx, pid string) {
+	reps := 8
+	if !c.Quick() {
+		reps = 60
+	}
+	lab := &Filt{Tag: FLabels, Map: Map{{1, 1}}}
+	for n := 1; n <= 4; n++ {
+		for rep := 0; rep < reps; rep++ {
+			what := fmt.Sprintf("Refilter(equal filter) and a parent event for a new accepted object ready at once (node held at the component's log call %d while it handles the previous event)", n)
+			c.Now(what)
+			var problems []string
+			var mirrorIDs, cache, want []int
+			dl := sched.Bubble(c.T, func() {
+				srv := fakeapi.New()
+				srv.Set(1, 1, labSets[1], 1)
+				ct := newCtlWith(srv, c.Seed+int64(rep), 0, 1000000*time.Second, nil)
+				defer func() {
+					ct.c.Close()
+					sched.Settle()
+				}()
+				sched.Settle()
+				fs, err := ct.c.SubscribeWithFilter(lab.Go())
+				if err != nil {
+					problems = append(problems, "SubscribeWithFilter failed")
+					return
+				}
+				sched.Settle()
+				seed, _ := fs.Cache().List()
+				m := newMirror(fs, seed)
+				release, held := ct.pert.HoldNth("publisher", n)
+				srv.Set(1, 2, labSets[1], 1) // the previous event
+				sched.Settle()
+				srv.Set(2, 1, labSets[1], 2) // the event that races with the Refilter
+				sched.Settle()
+				refiltered := make(chan error, 1)
+				go func() { refiltered <- fs.Refilter(lab.Go()) }()
+				sched.Settle()
+				_ = held
+				release()
+				sched.Settle()
+				select {
+				case err := <-refiltered:
+					if err != nil {
+						problems = append(problems, "Refilter(equal) failed: "+err.Error())
+					}
+				default:
+					problems = append(problems, "Refilter(equal) has not returned")
+				}
+				mirrorIDs = m.ids()
+				cache, _ = cacheIDs(fs.Cache())
+				want = acceptedIDs(srv.Objects(), lab.Go())
+				if _, bad, _ := m.snapshot(); len(bad) > 0 {
+					problems = append(problems, fmt.Sprint("ill-formed events: ", bad))
+				}
+			})
+			c.Rep.Evaluations++
+			replay := map[string]interface{}{"scenario": what, "mirror": fmt.Sprint(mirrorIDs), "cache": fmt.Sprint(cache), "server_accepted": fmt.Sprint(want)}
+			if dl != "" {
+				replay["deadlock"] = dl
+				c.Violation("", "hang (bubble deadlock): "+what, replay)
+				continue
+			}
+			for _, p := range problems {
+				c.Violation("", p+" ["+what+"]", replay)
+			}
+			if len(problems) == 0 {
+				if !sameInts(cache, want) {
+					c.Violation("", fmt.Sprintf("the filtered subscription's cache holds %v, its filter applied to the server %v [%s]", cache, want, what), replay)
+				} else if !sameInts(mirrorIDs, cache) {
+					c.Violation("", fmt.Sprintf("a consumer that mirrors the stream holds %v, the node's cache %v: an equal Refilter changed the cache without an event [%s]", mirrorIDs, cache, what), replay)
+				}
+			}
+			c.DistinctCase(fmt.Sprint("equal-refilter-race-", n))
+		}
+	}
 }
